@@ -68,9 +68,16 @@ def onesigma_from_jacobian(Jt, errs=None, C=None, B=None):
         F = JB.dot(JB.T)
     else:
         F = J.dot(J.T)
-    cond = np.linalg.cond(F)
-    cov = np.linalg.solve(F, np.eye(F.shape[0]))
-    return np.sqrt(np.diag(cov)), cond
+    # work on the unit-diagonal form D F D (D = diag(F)^-1/2): the rows of F differ in scale by amp^2 (the amplitude row goes
+    # as 1/errs, every other row as amp/errs), which says nothing about how well the parameters are determined; the
+    # condition number reported is the scale-free one
+    d = np.sqrt(np.diag(F))
+    if not np.all(np.isfinite(d)) or np.any(d <= 0):
+        raise np.linalg.LinAlgError('Fisher matrix has a non-positive diagonal')
+    Fn = F / np.outer(d, d)
+    cond = np.linalg.cond(Fn)
+    covn = np.linalg.solve(Fn, np.eye(Fn.shape[0]))
+    return np.sqrt(np.diag(covn)) / d, cond
 
 
 def selfcheck():
